@@ -17,9 +17,15 @@ RULE = ("one evaluation = one sub-monitor verdict on one (unit system, unit, cal
         "current), dimension (reference vector equal or documented SI/Gaussian counterpart), value (same physical quantity by own "
         "evaluator; physical pairing factor for counterparts), back-conversion, idempotence, agreement of get_base_equivalent / "
         "convert_to_base / in_cgs / in_mks / *_cgs / *_mks forms with in_base, constructor rejection/acceptance, fresh-system "
-        "usability (by name / by object / registry default / 'code'), units_map audit, history independence. "
+        "usability (by name / by object / registry default / 'code'), units_map audit, history independence; in a history of one system "
+        "NAME (define, convert, define again under the same name with other base units / declared units / current unit, convert "
+        "again; system handed over by name, as the object, as a deep copy, as an unpickled copy, as the default of a fresh / "
+        "deep-copied / unpickled registry; code systems defined again under the registry's id) the same verdicts against the NEW "
+        "definition, plus: the name reaches the new object, copying does not touch the registry, and each form (in_base, second "
+        "in_base, get_base_equivalent, convert_to_base) answers what it answers for the same definition under a never-used name "
+        "replayed in the same order. "
         "distinct = (sub-monitor, system, unit) for table units and (sub-monitor, system class, unit family, shape of the compound) "
-        "for generated units")
+        "for generated units; (sub-monitor, system class, kind of re-definition, how the system was handed over, unit family) in histories")
 ASSUMPTIONS = (
     "atomic scales are read as data from the registry table by symbol (their correctness is C02's subject); compound scales, "
     "dimensions, prefixes and affine maps are computed by vf/ref (uexpr, defs, dims), never by unyt",
@@ -47,6 +53,14 @@ ASSUMPTIONS = (
     "geometrized units) are discarded",
     "float32 cases whose expected magnitude leaves the float32 range are discarded (precision is C17's subject)",
     "the physical value of the V<->statV pairing is judged here because C10 says 'the same physical quantity' (C03 only notes it)",
+    "a UnitSystem constructed under a name that is already registered is a fresh user-defined system ('usable immediately'): from "
+    "then on the name, the new object and copies of it mean the NEW arguments, whatever was converted into the previous definition; "
+    "judged by the ordinary monitors with the ordinary keys (a known defect of a unit family keeps its key in a re-defined system) "
+    "and by a differential monitor against the same definition under a never-used name, replayed in the same order at the end of "
+    "the history (keys C10:redefine:...); re-defining a built-in name is not driven",
+    "a system object handed to a conversion stands for the registered system of its name (the library looks objects up by name): "
+    "deep copies and pickle round trips of the CURRENT definition are judged against it; objects, copies and registries that stem "
+    "from a superseded definition are no longer 'registered unit systems' - which definition they follow is recorded, not judged",
 )
 MIN_EVALS = 20000
 TIMEOUT = 1500
@@ -346,8 +360,10 @@ def landing(S, ctx, rexpr, d, scale=None):
     return bad
 
 
-def judge(ctx, S, sysarg, ustr, vals, dt="f8", scalar=False, cellkey=None, aliases=True, light=False, scls=None, keytag=""):
-    """run every entry point for (S, unit) and judge.  Returns the in_base result unit string or the exception name."""
+def judge(ctx, S, sysarg, ustr, vals, dt="f8", scalar=False, cellkey=None, aliases=True, light=False, scls=None, keytag="", trace=None,
+          case_extra=None):
+    """run every entry point for (S, unit) and judge.  Returns the in_base result unit string or the exception name.
+    trace: dict that receives what each form answered (for differential monitors of the caller)"""
     unyt, rec = ctx.unyt, ctx.rec
     UNR = unyt.exceptions.UnitsNotReducible
     scls = (scls or S.cls()) + keytag
@@ -365,6 +381,8 @@ def judge(ctx, S, sysarg, ustr, vals, dt="f8", scalar=False, cellkey=None, alias
     fam = family(ustr, A.dim)
     cell = cellkey if cellkey is not None else (sysname, ustr)
     case = {"system": S.name, "system_base": S.base, "unit": ustr, "values": np.asarray(vals).tolist(), "dtype": dt, "scalar": scalar}
+    if case_extra:
+        case.update(case_extra)
     try:
         q = make_q(ctx, ustr, vals, scalar)
     except Exception as e:
@@ -397,6 +415,8 @@ def judge(ctx, S, sysarg, ustr, vals, dt="f8", scalar=False, cellkey=None, alias
         rec.count(f"returned:{sysname}")
         rexpr = expr_of(r.units)
         rv = np.asarray(r.d)
+        if trace is not None:
+            trace["in_base"] = (rexpr, rv.tolist())
         try:
             B = Affine(rexpr, ctx.res)
         except Exception as e:
@@ -490,6 +510,8 @@ def judge(ctx, S, sysarg, ustr, vals, dt="f8", scalar=False, cellkey=None, alias
             try:
                 r2 = r.in_base(sysarg)
                 r2e = expr_of(r2.units)
+                if trace is not None:
+                    trace["twice"] = (r2e, np.asarray(r2.d).tolist())
                 if not same_unit(ctx, r2e, rexpr):
                     rec.violation(f"C10:in_base:not-idempotent:unit:{fam}:{scls}", f"({ustr}).in_base({S.name!r}) = {rexpr}, applied again = {r2e}", case)
                 elif not close(np.asarray(r2.d), np.asarray(r.d), 4 * eps):
@@ -498,6 +520,8 @@ def judge(ctx, S, sysarg, ustr, vals, dt="f8", scalar=False, cellkey=None, alias
                     rec.ok(("idem",) + tuple(cell))
             except Exception as e:
                 rec.violation(f"C10:in_base:not-idempotent:raises:{type(e).__name__}:{fam}:{scls}", f"({ustr}).in_base({S.name!r}) = {rexpr}; applying in_base again raised {type(e).__name__}: {str(e)[:120]}", case)
+    if trace is not None and out != "ret":
+        trace["in_base"] = (out, None)
     if light:
         return rexpr if out == "ret" else out
     # ---- Unit.get_base_equivalent agrees
@@ -511,6 +535,8 @@ def judge(ctx, S, sysarg, ustr, vals, dt="f8", scalar=False, cellkey=None, alias
         gout = type(e).__name__
         if gout != out:
             rec.violation(f"C10:get_base_equivalent:wrong-exception:{gout}:{fam}:{scls}", f"Unit({ustr!r}).get_base_equivalent({S.name!r}) raised {gout}: {str(e)[:150]}", case)
+    if trace is not None:
+        trace["gbe"] = (expr_of(g) if gout == "ret" else gout, None)
     if gout != out:
         if not (gout not in ("ret", "UnitsNotReducible")):
             rec.violation(f"C10:get_base_equivalent:disagrees-with-in_base:outcome:{fam}:{scls}", f"({ustr}) in {S.name}: in_base -> {rexpr or out}, get_base_equivalent -> {expr_of(g) if gout == 'ret' else gout}", case)
@@ -534,6 +560,8 @@ def judge(ctx, S, sysarg, ustr, vals, dt="f8", scalar=False, cellkey=None, alias
         cout = type(e).__name__
         if cout != out:
             rec.violation(f"C10:convert_to_base:wrong-exception:{cout}:{fam}:{scls}", f"({ustr}).convert_to_base({S.name!r}) raised {cout}: {str(e)[:150]}", case)
+    if trace is not None:
+        trace["inplace"] = (expr_of(q2.units), np.asarray(q2.d).tolist()) if cout == "ret" else (cout, None)
     if cout != out:
         if not (cout not in ("ret", "UnitsNotReducible")):
             rec.violation(f"C10:convert_to_base:disagrees-with-in_base:outcome:{fam}:{scls}", f"({ustr}) in {S.name}: in_base -> {rexpr or out}, convert_to_base -> {expr_of(q2.units) if cout == 'ret' else cout}", case)
@@ -817,6 +845,10 @@ def batches(tier, seed):
     for i in range(nform):
         b.append((f"forms/{i}", ("forms", (seed, i, nform, tier))))
     b.append(("declared-lookup", ("lookup", None)))
+    nre, perre = (8, 3) if tier == "quick" else (64, 5)
+    for k, sd in enumerate(seeds):
+        for i in range(nre):
+            b.append((f"redef/{k}/{i}", ("redef", (sd, f"{k}_{i}", perre, tier))))
     return b
 
 
@@ -887,6 +919,9 @@ def worker(batch, rec):
         forms_cases(unyt, rec, core.rng(seed, "forms", i), i, n, tier)
     elif kind == "lookup":
         lookup_cases(unyt, rec)
+    elif kind == "redef":
+        seed, i, n, tier = payload
+        redef_cases(unyt, rec, core.rng(seed, "redef", i), i, n, tier)
 
 
 # ------------------------------------------------------------------ user systems
@@ -1026,6 +1061,230 @@ def _spell(d):
     return "*".join(parts) if parts else "dimensionless"
 
 
+# ------------------------------------------------------------------ histories of one system NAME (re-definition, copies)
+EM_PROBES = ("C", "T", "A", "V", "Ω", "ohm", "F", "H", "Wb", "mT", "uT", "mV", "kV", "kΩ", "uC", "mA", "kA",
+             "G", "statC", "esu", "statA", "statV", "statohm", "kG", "uG", "Mx")
+EM_DIMNAMES_CUR = ("charge", "magnetic_field", "electric_potential", "resistance", "capacitance", "inductance", "magnetic_flux")
+EM_DIMNAMES_NOCUR = ("magnetic_field_cgs", "charge_cgs", "current_cgs", "electric_potential_cgs", "resistance_cgs")
+REDEF_MODES = ("fresh", "fresh", "rebase", "rebase", "redeclare", "redeclare", "toggle-current", "same")
+
+
+def _gen_over(r, cur, em_bias):
+    """declared units for a generated system, drawn with more weight on the electromagnetic dimensions than gen_system does"""
+    pool = dict(OVERRIDE_POOL)
+    pool.update(OVERRIDE_CUR if cur else OVERRIDE_NOCUR)
+    over = [(dn, r.choice(pool[dn]), r.choice(["name", "name", "dimobj"]), "early") for dn in r.sample(sorted(pool), r.randint(0, 4))]
+    emn = [dn for dn in (EM_DIMNAMES_CUR if cur else EM_DIMNAMES_NOCUR) if dn in pool]
+    for dn in r.sample(emn, min(len(emn), 2)):
+        if r.random() < em_bias and SM.DIMNAME[dn] not in {SM.DIMNAME[o[0]] for o in over}:
+            over.append((dn, r.choice(pool[dn]), r.choice(["name", "dimobj"]), "early"))
+    return over
+
+
+def _set_current(desc, cur_unit):
+    desc["base"]["current_mks"] = cur_unit
+    desc["forms"]["current_mks"] = "none" if cur_unit is None else "str"
+
+
+def next_definition(r, prev, serial):
+    """the next definition registered under the SAME name: other base units, other declared units, with/without a current
+    unit, or the same definition again.  More than half of them carry no declared unit at all (no __setitem__ is ever
+    called on them, so nothing but the constructor tells the library that the name now means something else)"""
+    mode = r.choice(REDEF_MODES)
+    fresh = gen_system(r, f"re{serial}", allow_offset=False)
+    new = {"name": prev["name"], "base": dict(prev["base"]), "forms": dict(prev["forms"]), "coeff": dict(prev["coeff"]),
+           "over": [tuple(o) for o in prev["over"]], "npos": prev["npos"]}
+    if mode == "fresh":
+        new.update(base=fresh["base"], forms=fresh["forms"], coeff=fresh["coeff"], npos=fresh["npos"])
+        new["over"] = _gen_over(r, new["base"]["current_mks"] is not None, 0.5)
+    elif mode == "rebase":
+        slots = ["length", "mass", "time"] + r.sample(["temperature", "angle", "luminous_intensity", "logarithmic"], r.randint(0, 2))
+        for sl in r.sample(slots, r.randint(1, len(slots))):
+            new["base"][sl] = fresh["base"][sl]; new["forms"][sl] = fresh["forms"][sl]; new["coeff"][sl] = fresh["coeff"][sl]
+        if new["base"]["current_mks"] is not None and r.random() < 0.5:
+            _set_current(new, r.choice(["A", "mA", "kA", "uA"]))
+    elif mode == "redeclare":
+        new["over"] = _gen_over(r, new["base"]["current_mks"] is not None, 0.8)
+    elif mode == "toggle-current":
+        _set_current(new, None if new["base"]["current_mks"] is not None else r.choice(["A", "mA"]))
+        new["over"] = _gen_over(r, new["base"]["current_mks"] is not None, 0.5)
+    if mode != "same" and r.random() < 0.55:
+        new["over"] = []
+    return mode, new
+
+
+def _plain_forms(unyt, ctx, sysarg, ustr, vals, warm=None):
+    """what the three forms answer, unjudged: {form: (unit string or exception name, values or None)}"""
+    out = {}
+    if warm is not None:
+        _warm(unyt, ctx, sysarg, ustr, vals, warm)
+    try:
+        x = make_q(ctx, ustr, vals).in_base(sysarg)
+        out["in_base"] = (expr_of(x.units), np.asarray(x.d).tolist())
+        try:
+            y = x.in_base(sysarg)
+            out["twice"] = (expr_of(y.units), np.asarray(y.d).tolist())
+        except Exception as e:
+            out["twice"] = (type(e).__name__, None)
+    except Exception as e:
+        out["in_base"] = (type(e).__name__, None)
+    try:
+        out["gbe"] = (expr_of(make_q(ctx, ustr, vals).units.get_base_equivalent(sysarg)), None)
+    except Exception as e:
+        out["gbe"] = (type(e).__name__, None)
+    try:
+        q = make_q(ctx, ustr, np.array(vals, copy=True)); q.convert_to_base(sysarg)
+        out["inplace"] = (expr_of(q.units), np.asarray(q.d).tolist())
+    except Exception as e:
+        out["inplace"] = (type(e).__name__, None)
+    return out
+
+
+def _warm(unyt, ctx, sysarg, ustr, vals, form):
+    """one unjudged first call through the named form (whichever form comes first fills the memos)"""
+    try:
+        q = make_q(ctx, ustr, np.array(vals, copy=True))
+        if form == "in_base":
+            q.in_base(sysarg)
+        elif form == "convert_to_base":
+            q.convert_to_base(sysarg)
+        else:
+            q.units.get_base_equivalent(sysarg)
+    except Exception:
+        pass
+
+
+def redef_cases(unyt, rec, r, idx, nhist, tier):
+    import copy
+    import pickle
+    from unyt.unit_systems import unit_system_registry
+    from unyt.unit_registry import UnitRegistry
+    ctx = Ctx(unyt, rec)
+    vals = np.array(VALS[:3])
+    for h in range(nhist):
+        name = r.choice(["vf_c10_lab", "lab", "vf c10 re", "Vf_C10"]) + f"_{idx}_{h}"
+        first = gen_system(r, f"re{idx}_{h}", allow_offset=False)
+        first["name"] = name
+        if r.random() < 0.5:
+            first["over"] = _gen_over(r, first["base"]["current_mks"] is not None, 0.6)
+        nsteps = r.choice([2, 3, 3]) if tier == "quick" else r.choice([2, 3, 4, 5, 6])
+        descs = [("first", first)]
+        for k in range(1, nsteps):
+            descs.append(next_definition(r, descs[-1][1], f"{idx}_{h}_{k}"))
+        # the probes of the whole history: electromagnetic atoms of both families, plain and prefixed; atoms and compound spellings
+        # of every dimension some definition of the history declares a unit for; table atoms; generated compounds
+        probes = [u for u in EM_PROBES if names.resolve(u) is not None]
+        probes = r.sample(probes, 14 if tier == "quick" else 20)
+        for _m, d in descs:
+            for (dn, _u, _kf, _w) in d["over"]:
+                dd = SM.DIMNAME[dn]
+                probes.append(_spell(dd))
+                a = _unit_of_dim(r, dd)
+                if a is not None:
+                    probes.append(a)
+        probes += r.sample(atom_list("quick"), 5 if tier == "quick" else 10)
+        probes += [gen_compound(r, 0.3) for _ in range(3 if tier == "quick" else 8)]
+        probes = sorted(set(probes))
+        stale = []            # (step, object or copy of a superseded definition)
+        log = []              # per step: (desc, [(unit, warm form, trace)])
+        converted_before = set()
+        for k, (mode, desc) in enumerate(descs):
+            rec.count("mon:redef-construct")
+            try:
+                Sobj, S = construct(unyt, desc)
+            except Exception as e:
+                rec.violation(f"C10:redefine:consistent-base-rejected:{type(e).__name__}", f"definition #{k} ({mode}) of {name!r} with consistent base units {desc['base']} raised {type(e).__name__}: {str(e)[:150]}", desc)
+                break
+            scls = S.cls()
+            rec.count("mon:redef-registered")
+            if unit_system_registry.get(name) is not Sobj:
+                rec.violation("C10:redefine:name-does-not-reach-new-definition", f"after defining {name!r} again ({mode}), unit_system_registry[{name!r}] is not the new system", desc)
+            else:
+                rec.ok(("redef-registered", scls, mode if k else "first"))
+            for (dn, u, kf, _w) in desc["over"]:
+                declare(unyt, Sobj, S, dn, u, kf)
+            setitem_free = not desc["over"]
+            copies = [("name", name), ("object", Sobj), ("deepcopy", copy.deepcopy(Sobj)), ("pickle", pickle.loads(pickle.dumps(Sobj)))]
+            rec.count("mon:redef-copy-keeps-registry")
+            if unit_system_registry.get(name) is not Sobj:
+                rec.violation("C10:redefine:copying-a-system-replaces-the-registered-one", f"after copy.deepcopy / pickle round trip of the system {name!r}, unit_system_registry[{name!r}] is another object", desc)
+            else:
+                rec.ok(("redef-copy-keeps-registry", scls))
+            order = r.sample(probes, len(probes))
+            steplog = []
+            for j, u in enumerate(order):
+                how, arg = copies[r.randrange(len(copies))]
+                warm = r.choice([None, "in_base", "convert_to_base", "get_base_equivalent"])
+                if warm is not None:
+                    _warm(unyt, ctx, arg, u, vals, warm)
+                tr = {}
+                fam = family(u, None)
+                out = judge(ctx, S, arg, u, vals, cellkey=(scls, "redef", mode if k else "first", how, fam), aliases=False, scls=scls, trace=tr,
+                            case_extra={"history": [d["base"] for _m, d in descs[:k + 1]], "declared": [d["over"] for _m, d in descs[:k + 1]],
+                                        "definition_no": k, "mode": mode, "system_given_as": how})
+                if out is None:
+                    continue
+                steplog.append((u, warm, tr))
+                if k:
+                    rec.count("mon:redef-judged")
+                    if how in ("deepcopy", "pickle"):
+                        rec.count("mon:redef-copy")
+                    if setitem_free and u in converted_before and fam.startswith("em-"):
+                        rec.count("mon:redef-em-after-warm")
+                converted_before.add(u)
+                # objects of superseded definitions: the library looks a system up by the object's name; recorded, not judged
+                if stale and j % 4 == 0:
+                    ks, so = stale[r.randrange(len(stale))]
+                    rec.count("mon:redef-stale-object")
+                    try:
+                        x = expr_of(make_q(ctx, u, vals).in_base(so).units)
+                    except Exception as e:
+                        x = type(e).__name__
+                    rec.note("superseded-system-object:" + ("follows-current-definition" if x == out or same_unit(ctx, x, out) else "answers-otherwise"))
+            # the system as the default of a registry (fresh, deep-copied, unpickled: the latter carries its own copy of the system)
+            reg0 = UnitRegistry(unit_system=name)
+            for how, reg in (("fresh", reg0), ("deepcopy", copy.deepcopy(reg0)), ("pickle", pickle.loads(pickle.dumps(reg0)))):
+                cr = Ctx(unyt, rec, reg)
+                Sr = SM.SysModel(S.name, [S.base[s] for s in SM.SLOTS], dict(S.declared), cr.canon, origin=S.origin)
+                for u in r.sample(order, 2):
+                    rec.count("mon:redef-registry-default")
+                    _default_one(unyt, cr, Sr, u, f"redefined-registry-default-{how}", scls=scls)
+            log.append((desc, steplog))
+            stale += [(k, Sobj), (k, copies[2][1])]
+        # differential: the same definitions under never-used names, replayed in the same order, must answer the same
+        for k, (desc, steplog) in enumerate(log):
+            if k == 0 and tier == "quick" and h % 2:
+                continue
+            tw = dict(desc, name=f"{name}_twin{k}")
+            try:
+                Tobj, TS = construct(unyt, tw)
+                for (dn, u, kf, _w) in tw["over"]:
+                    declare(unyt, Tobj, TS, dn, u, kf)
+            except Exception as e:
+                rec.note(f"harness:twin-not-constructible:{type(e).__name__}"); continue
+            scls = TS.cls()
+            for (u, warm, tr) in steplog:
+                got = _plain_forms(unyt, ctx, tw["name"], u, vals, warm)
+                fam = family(u, None)
+                for form in ("in_base", "twice", "gbe", "inplace"):
+                    if form not in tr or form not in got:
+                        continue
+                    rec.count("mon:redef-twin")
+                    (e1, v1), (e2, v2) = tr[form], got[form]
+                    what = None
+                    if e1 != e2 and not same_unit(ctx, e1, e2):
+                        what = "unit"
+                    elif v1 is not None and v2 is not None and not close(np.asarray(v1), np.asarray(v2), 1e-13):
+                        what = "value"
+                    if what:
+                        rec.violation(f"C10:redefine:differs-from-same-definition-under-fresh-name:{form}:{what}:{fam}:{scls}",
+                                      f"{name!r} definition #{k} {desc['base']} declared {desc['over']}: ({u}) {form} -> {v1} {e1}; the same definition under the never-used name {tw['name']!r} -> {v2} {e2}",
+                                      {"history": [d["base"] for d, _l in log[:k + 1]], "declared": [d["over"] for d, _l in log[:k + 1]], "unit": u, "form": form})
+                    else:
+                        rec.ok(("redef-twin", form, scls, fam, "first" if k == 0 else "redefined"))
+        rec.sample({"redefinition_history": [{"mode": m, "base": d["base"], "over": d["over"]} for m, d in descs], "probes": probes[:8]})
+
+
 # ------------------------------------------------------------------ constructor
 WRONG = {
     "length": ["s", "g", "K", "rad", "A", "cd", "Np", "erg", "Hz", "dimensionless", "sr", "L", "ha"],
@@ -1161,6 +1420,27 @@ def code_cases(unyt, rec, r, idx, tier):
         how, arg = args[j % len(args)]
         judge(ctx, S, arg, u, np.array(VALS[:3]), cellkey=(scls, how, family(u, None) if not u.startswith("code") else "code-unit"), aliases=False, scls=scls)
     audit_units_map(ctx, S, Sobj)
+    # the dataset is loaded again: a system of the same name (the registry's id) is defined anew, this time declaring nothing
+    # and (where there is a current unit) with another one; everything converted above must now follow the new definition
+    desc2 = dict(desc, base=dict(desc["base"]), forms=dict(desc["forms"]))
+    if cur:
+        desc2["base"]["current_mks"] = r.choice(["mA", "kA", "A"])
+    again = [u for u in units if family(u, None).startswith("em-") or u.startswith("code")] + r.sample(units, 6)
+    for j, u in enumerate(again):       # the conversions closest to the re-definition (their memos are the youngest)
+        _warm(unyt, ctx, args[j % len(args)][1], u, np.array(VALS[:3]), ("in_base", "convert_to_base", "get_base_equivalent")[j % 3])
+    rec.count("mon:code-redefine")
+    try:
+        Sobj2, S2 = construct(unyt, desc2, reg)
+    except Exception as e:
+        rec.violation(f"C10:redefine:consistent-base-rejected:code:{type(e).__name__}", f"second code unit system over the same registry raised {type(e).__name__}: {str(e)[:150]}", {"cur": cur}); return
+    args2 = [("'code'", "code"), ("object", Sobj2), ("dataset-like", ds), ("id", reg.unit_system_id)]
+    for j, u in enumerate(again):
+        how, arg = args2[(j + 1) % len(args2)]
+        rec.count("mon:code-redefine-judged")
+        judge(ctx, S2, arg, u, np.array(VALS[:3]), cellkey=(scls, "redefined", how, family(u, None) if not u.startswith("code") else "code-unit"), aliases=False, scls=scls,
+              case_extra={"history": "code system declared velocity/pressure/magnetic field, converted, then defined again under the same id without declared units",
+                          "system_given_as": how})
+    audit_units_map(ctx, S2, Sobj2)
     # code units towards the built-in systems
     for s in BUILTINS:
         Sb = SM.builtin_model(s, ctx.canon)
@@ -1313,7 +1593,9 @@ def lookup_cases(unyt, rec):
 # ------------------------------------------------------------------ evidence
 DECIDING = ("mon:in_base-calls", "mon:dim", "mon:inside", "mon:value", "mon:back", "mon:idem", "mon:gbe", "mon:inplace", "mon:alias",
             "mon:history", "mon:units_map", "mon:usable", "mon:user-construct", "mon:getitem", "mon:ctor-reject", "mon:ctor-accept",
-            "mon:code-construct", "mon:default", "mon:lookup")
+            "mon:code-construct", "mon:default", "mon:lookup",
+            "mon:redef-construct", "mon:redef-registered", "mon:redef-copy-keeps-registry", "mon:redef-judged", "mon:redef-copy", "mon:redef-em-after-warm",
+            "mon:redef-stale-object", "mon:redef-registry-default", "mon:redef-twin", "mon:code-redefine", "mon:code-redefine-judged")
 
 
 def extra(tier, seed, results):
